@@ -44,6 +44,18 @@ pub struct Core {
     network: SimpleSender,
 }
 
+#[cfg(hotstuff_verif)]
+impl Core {
+    pub(crate) fn verif_scalars(&self) -> (Round, Round, Round, &QC) {
+        (
+            self.round,
+            self.last_voted_round,
+            self.last_committed_round,
+            &self.high_qc,
+        )
+    }
+}
+
 impl Core {
     #[allow(clippy::too_many_arguments)]
     pub fn spawn(
@@ -112,6 +124,8 @@ impl Core {
         // Ensure we won't vote for contradicting blocks.
         self.increase_last_voted_round(block.round);
         // TODO [issue #15]: Write to storage preferred_round and last_voted_round.
+        #[cfg(hotstuff_verif)]
+        crate::verif::emit(format!("\"ev\":\"Vote\",\"blk\":\"{}\",\"round\":{}", crate::verif::hex(&block.digest().0), block.round));
         Some(Vote::new(block, self.name, self.signature_service.clone()).await)
     }
 
@@ -149,6 +163,8 @@ impl Core {
                 }
             }
             debug!("Committed {:?}", block);
+            #[cfg(hotstuff_verif)]
+            crate::verif::emit(format!("\"ev\":\"Commit\",\"blk\":\"{}\",\"round\":{},\"parent\":\"{}\"", crate::verif::hex(&block.digest().0), block.round, crate::verif::hex(&block.parent().0)));
             if let Err(e) = self.tx_commit.send(block).await {
                 warn!("Failed to send block through the commit channel: {}", e);
             }
@@ -164,6 +180,8 @@ impl Core {
 
     async fn local_timeout_round(&mut self) -> ConsensusResult<()> {
         warn!("Timeout reached for round {}", self.round);
+        #[cfg(hotstuff_verif)]
+        crate::verif::emit(format!("\"ev\":\"In\",\"k\":\"Timer\",\"round\":{}", self.round));
 
         // Increase the last voted round.
         self.increase_last_voted_round(self.round);
@@ -177,6 +195,8 @@ impl Core {
         )
         .await;
         debug!("Created {:?}", timeout);
+        #[cfg(hotstuff_verif)]
+        crate::verif::emit(format!("\"ev\":\"TimeoutMade\",\"t\":{}", crate::verif::timeout(&timeout)));
 
         // Reset the timer.
         self.timer.reset();
@@ -202,6 +222,8 @@ impl Core {
     #[async_recursion]
     async fn handle_vote(&mut self, vote: &Vote) -> ConsensusResult<()> {
         debug!("Processing {:?}", vote);
+        #[cfg(hotstuff_verif)]
+        crate::verif::emit(format!("\"ev\":\"In\",\"k\":\"Vote\",\"v\":{}", crate::verif::vote(vote)));
         if vote.round < self.round {
             return Ok(());
         }
@@ -212,6 +234,8 @@ impl Core {
         // Add the new vote to our aggregator and see if we have a quorum.
         if let Some(qc) = self.aggregator.add_vote(vote.clone())? {
             debug!("Assembled {:?}", qc);
+            #[cfg(hotstuff_verif)]
+            crate::verif::emit(format!("\"ev\":\"QCMade\",\"qc\":{}", crate::verif::qc(&qc)));
 
             // Process the QC.
             self.process_qc(&qc).await;
@@ -226,6 +250,8 @@ impl Core {
 
     async fn handle_timeout(&mut self, timeout: &Timeout) -> ConsensusResult<()> {
         debug!("Processing {:?}", timeout);
+        #[cfg(hotstuff_verif)]
+        crate::verif::emit(format!("\"ev\":\"In\",\"k\":\"Timeout\",\"t\":{}", crate::verif::timeout(timeout)));
         if timeout.round < self.round {
             return Ok(());
         }
@@ -239,6 +265,8 @@ impl Core {
         // Add the new vote to our aggregator and see if we have a quorum.
         if let Some(tc) = self.aggregator.add_timeout(timeout.clone())? {
             debug!("Assembled {:?}", tc);
+            #[cfg(hotstuff_verif)]
+            crate::verif::emit(format!("\"ev\":\"TCMade\",\"tc\":{}", crate::verif::tc(&tc)));
 
             // Try to advance the round.
             self.advance_round(tc.round).await;
@@ -274,6 +302,8 @@ impl Core {
         self.timer.reset();
         self.round = round + 1;
         debug!("Moved to round {}", self.round);
+        #[cfg(hotstuff_verif)]
+        crate::verif::emit(format!("\"ev\":\"Round\",\"round\":{}", self.round));
 
         // Cleanup the vote aggregator.
         self.aggregator.cleanup(&self.round);
@@ -281,6 +311,8 @@ impl Core {
 
     #[async_recursion]
     async fn generate_proposal(&mut self, tc: Option<TC>) {
+        #[cfg(hotstuff_verif)]
+        crate::verif::emit(format!("\"ev\":\"Make\",\"round\":{},\"qc\":{},\"tc\":{}", self.round, crate::verif::qc(&self.high_qc), crate::verif::opt_tc(&tc)));
         self.tx_proposer
             .send(ProposerMessage::Make(self.round, self.high_qc.clone(), tc))
             .await
@@ -309,6 +341,8 @@ impl Core {
     #[async_recursion]
     async fn process_block(&mut self, block: &Block) -> ConsensusResult<()> {
         debug!("Processing {:?}", block);
+        #[cfg(hotstuff_verif)]
+        crate::verif::emit(format!("\"ev\":\"Process\",\"b\":{}", crate::verif::block(block)));
 
         // Let's see if we have the last three ancestors of the block, that is:
         //      b0 <- |qc0; b1| <- |qc1; block|
@@ -319,12 +353,16 @@ impl Core {
             Some(ancestors) => ancestors,
             None => {
                 debug!("Processing of {} suspended: missing parent", block.digest());
+                #[cfg(hotstuff_verif)]
+                crate::verif::emit(format!("\"ev\":\"Parked\",\"blk\":\"{}\"", crate::verif::hex(&block.digest().0)));
                 return Ok(());
             }
         };
 
         // Store the block only if we have already processed all its ancestors.
         self.store_block(block).await;
+        #[cfg(hotstuff_verif)]
+        crate::verif::emit(format!("\"ev\":\"Stored\",\"blk\":\"{}\"", crate::verif::hex(&block.digest().0)));
 
         self.cleanup_proposer(&b0, &b1, block).await;
 
@@ -366,6 +404,8 @@ impl Core {
         let digest = block.digest();
 
         // Ensure the block proposer is the right leader for the round.
+        #[cfg(hotstuff_verif)]
+        crate::verif::emit(format!("\"ev\":\"In\",\"k\":\"Propose\",\"b\":{}", crate::verif::block(block)));
         ensure!(
             block.author == self.leader_elector.get_leader(block.round),
             ConsensusError::WrongLeader {
@@ -390,6 +430,8 @@ impl Core {
         // will get it and then make us resume processing this block.
         if !self.mempool_driver.verify(block.clone()).await? {
             debug!("Processing of {} suspended: missing payload", digest);
+            #[cfg(hotstuff_verif)]
+            crate::verif::emit(format!("\"ev\":\"PayloadMissing\",\"blk\":\"{}\"", crate::verif::hex(&digest.0)));
             return Ok(());
         }
 
@@ -398,6 +440,8 @@ impl Core {
     }
 
     async fn handle_tc(&mut self, tc: TC) -> ConsensusResult<()> {
+        #[cfg(hotstuff_verif)]
+        crate::verif::emit(format!("\"ev\":\"In\",\"k\":\"TC\",\"tc\":{}", crate::verif::tc(&tc)));
         tc.verify(&self.committee)?;
         if tc.round < self.round {
             return Ok(());
@@ -413,6 +457,8 @@ impl Core {
         // Upon booting, generate the very first block (if we are the leader).
         // Also, schedule a timer in case we don't hear from the leader.
         self.timer.reset();
+        #[cfg(hotstuff_verif)]
+        crate::verif::emit(format!("\"ev\":\"Boot\",{}", crate::verif::state(self)));
         if self.name == self.leader_elector.get_leader(self.round) {
             self.generate_proposal(None).await;
         }
@@ -431,6 +477,19 @@ impl Core {
                 Some(block) = self.rx_loopback.recv() => self.process_block(&block).await,
                 () = &mut self.timer => self.local_timeout_round().await,
             };
+            #[cfg(hotstuff_verif)]
+            crate::verif::emit(format!(
+                "\"ev\":\"Done\",\"ok\":{},\"err\":\"{}\",{}",
+                result.is_ok(),
+                match &result {
+                    Ok(()) => String::new(),
+                    Err(e) => format!("{:?}", e)
+                        .chars()
+                        .take_while(|c| c.is_alphanumeric())
+                        .collect(),
+                },
+                crate::verif::state(self)
+            ));
             match result {
                 Ok(()) => (),
                 Err(ConsensusError::StoreError(e)) => error!("{}", e),
